@@ -83,6 +83,8 @@ type Contract struct {
 	NoReads      []NoReads
 	OnlyWriter   []NoReads
 	FieldTypes   []NoReads
+	OnlyCallers  []NoReads
+	NoMethods    []NoReads
 	StringsExact bool // model the contents of concatenated strings (quantified axioms)
 	Handler  bool // deferred recover handler: recover() yields an arbitrary value
 	RecoverBy string // callee key of the deferred recover handler: runtime panics after its Defer are converted to errors
@@ -536,6 +538,32 @@ func (sp *Specs) loadSpecFile(path, pkgPath string) error {
 				return fail(err)
 			}
 			cur.FieldsOf = append(cur.FieldsOf, c)
+		case "onlycallers", "nomethod":
+			// onlycallers[label;props] <callerKey>... : only the listed repo functions call this one
+			// nomethod[label;props] pkg.Type.Method ... : the named methods do not exist
+			nr := NoReads{}
+			r := strings.TrimSpace(rest)
+			if m := reLabel.FindStringSubmatch(r); m != nil {
+				parts := strings.SplitN(m[1], ";", 2)
+				nr.Label = strings.TrimSpace(parts[0])
+				if len(parts) == 2 {
+					for _, pr := range strings.Split(parts[1], ",") {
+						if pr = strings.TrimSpace(pr); pr != "" {
+							nr.Props = append(nr.Props, pr)
+						}
+					}
+				}
+				r = r[len(m[0]):]
+			}
+			nr.Fields = strings.Fields(r)
+			if len(nr.Fields) == 0 {
+				return fail(fmt.Errorf("%s: names expected", word))
+			}
+			if word == "onlycallers" {
+				cur.OnlyCallers = append(cur.OnlyCallers, nr)
+			} else {
+				cur.NoMethods = append(cur.NoMethods, nr)
+			}
 		case "fieldtype":
 			// fieldtype[label;props] pkg.Type.Field <type> : the field has exactly this type (a
 			// design decision a proof rests on, e.g. "the state holds a COPY of the registry")
